@@ -126,6 +126,10 @@ fn check_pattern_exhaustiveness_expr(statics: &mut StaticsContext, expr: &Rc<Exp
             }
 
             match_expr_exhaustive_check(statics, expr.node(), scrutiny, arms);
+            check_pattern_exhaustiveness_expr(statics, scrutiny);
+            for arm in arms {
+                check_pattern_exhaustiveness_stmt(statics, &arm.stmt);
+            }
         }
 
         ExprKind::Nil
@@ -186,7 +190,9 @@ fn check_pattern_exhaustiveness_expr(statics: &mut StaticsContext, expr: &Rc<Exp
         ExprKind::Try(expr) => {
             check_pattern_exhaustiveness_expr(statics, expr);
         }
-        ExprKind::TaskBlock(_) => {}
+        ExprKind::TaskBlock(body) => {
+            check_pattern_exhaustiveness_expr(statics, body);
+        }
     }
 }
 
